@@ -581,7 +581,14 @@ func (s *MergeExp) BindingPath(bindPath string,
 		for _, c := range cofork {
 			defer delete(fork, c)
 		}
+		// Bind the keys in sorted order, so that the order of the reported
+		// errors is repeatable.
+		sortedKeys := make([]string, 0, len(keys))
 		for i := range keys {
+			sortedKeys = append(sortedKeys, i)
+		}
+		sort.Strings(sortedKeys)
+		for _, i := range sortedKeys {
 			fork[s.GetCall()] = mapKeyIndex(i)
 			for _, c := range cofork {
 				fork[c] = mapKeyIndex(i)
